@@ -15,7 +15,7 @@ from pathlib import Path
 from ..core import AnalysisError
 from ..facts import block_size, loc
 from ..packs import tables
-from ..src import Repo, call_name, walk_no_nested
+from ..src import Repo, call_name, const_text, walk_no_nested
 
 INT_ATTRS = {"config_version", "log_version", "pack_type", "config_number"}
 TEXT_ATTRS = {"pack", "revision"}
@@ -281,12 +281,25 @@ def check(ctx):
     ctx.ob("R1", "do_snapshot::writes-header-versions-block", len(order) == 3, f"do_snapshot writes {len(order)} kinds of lines (header, version lines, block expected)", ds.loc)
     # parse_log_file: a snapshot starts at a line containing "Snapshot" and takes lines containing "INFO"
     plf = repo.method("GeckoSnapshot", "parse_log_file")
-    t = ast.unparse(plf.node)
+    t = const_text(plf)
     ctx.ob("R1", "parse_log_file::markers", "'Snapshot' in line" in t and "'INFO' in line" in t, "parse_log_file no longer keys on the 'Snapshot' and 'INFO' markers the shell's log format carries", plf.loc)
 
     # ---- R2 block dump ------------------------------------------------------------------------
     dump = [n for n in ast.walk(ds.node) if isinstance(n, ast.ListComp) and isinstance(n.elt, ast.Call) and call_name(n.elt) == "hex"]
     ok = len(dump) == 1 and ast.unparse(dump[0].generators[0].iter).endswith("struct.status_block") and ast.unparse(dump[0].elt.args[0]) == ast.unparse(dump[0].generators[0].target)
+    if not dump:
+        # explicit-loop idiom: acc = []; for b in block: acc.append(hex(b)); logger.info(acc)
+        from ..cfg import cfg_of
+        from ..src import receiver
+        gds = cfg_of(ds)
+        for an, ac in gds.nodes_calling("append"):
+            lp = gds.loop_of(an)
+            if lp is not None and lp.kind == "for" and ast.unparse(lp.ast.iter).endswith("struct.status_block") \
+                    and ast.unparse(ac.args[0]) == f"hex({ast.unparse(lp.ast.target)})":
+                acc = receiver(ac)
+                logged = any(isinstance(c, ast.Call) and call_name(c) == "info" and c.args and ast.unparse(c.args[0]) == acc for c in ast.walk(ds.node))
+                unconditional = len([x for x in gds.guards(an, entry=lp, cut_back=True) if x[0] is not lp]) == 0
+                ok = logged and unconditional
     ctx.ob("R2", "writer::hex-list-of-block", ok, "do_snapshot does not log [hex(b) for b in status_block]", ds.loc)
     pat = by_fn.get("_re_data")
     ok = pat is not None
@@ -306,7 +319,7 @@ def check(ctx):
     ctx.ob("R2", "reader::list-regex-admits-dump", ok, f"the list regex {pat!r} does not admit every character of a hex list dump", snap_init.loc, sample={"rule": "R2", "regex": pat})
     rd = repo.method("GeckoSnapshot", "_re_data")
     t = ast.unparse(rd.node)
-    ctx.ob("R2", "reader::parses-hex-elements", "int(b.strip()[1:-1], 16)" in t and ".split(',')" in t, f"_re_data does not parse each comma-separated element with int(strip()[1:-1], 16)", rd.loc)
+    ctx.ob("R2", "reader::parses-hex-elements", bool(re.search(r"int\((\w+)\.strip\(\)\[1:-1\], 16\)", t)) and ".split(',')" in t, f"_re_data does not parse each comma-separated element with int(strip()[1:-1], 16)", rd.loc)
     ctx.ob("R2", "reader::bytes", "bytes(bytearray(" in t or "bytes([" in t, "_re_data does not build a bytes object", rd.loc)
 
     # ---- R3 traffic log ---------------------------------------------------------------------------
